@@ -118,9 +118,13 @@ class PathCtx:
     """Upper bound for len(b) from an equality fact that mentions len(b) linearly."""
     la = Atom("len", b)
     for f in self.facts:
-      if f[0] == "cmp" and f[1] == "Eq" and isinstance(f[2], Poly) and isinstance(f[3], Poly):
+      if f[0] == "cmp" and f[1] in ("Eq", "LtE", "Lt", "GtE", "Gt") and isinstance(f[2], Poly) and isinstance(f[3], Poly):
         d = f[2] - f[3]
+        if f[1] in ("GtE", "Gt"):
+          d = -d                      # d <= 0 (or < 0)
         if la in d.atoms():
+          if f[1] != "Eq" and not d.t.get(((la, 1),), 0) > 0:
+            continue                  # an inequality bounds len(b) from above only when its coefficient is positive
           # d = coef*len + rest = 0
           coef = None
           rest = Poly()
